@@ -52,7 +52,7 @@ def regDeprec (w : World) (rs : RegSrc) (allowed : List VerS) : Option (Str × S
   | some (some vs) =>
     match selectVersion vs allowed with
     | some sel =>
-      match vs.find? (fun v => v.rank = sel.rank) with
+      match vs.find? (fun v => v.ver = sel.ver) with
       | some v => v.deprecation
       | none => none
     | none => none
